@@ -32,6 +32,7 @@ func main() {
 	shadow := flag.String("shadow", "", "shadow solver command for cross-checking (e.g. 'z3-new -in -smt2')")
 	noifc := flag.Bool("noifconv", false, "disable if-conversion")
 	smtlog := flag.String("smtlog", "", "write solver input of worker 0 to file")
+	solverBin := flag.String("solver", "", "primary solver command (default 'z3 -in -smt2'; e.g. 'z3-new -in -smt2')")
 	jobsFile := flag.String("jobs", "", "JSON file with pinned/seeded jobs to run concretely in the interpreter")
 	jobsOut := flag.String("jobsout", "", "output file for job outcomes")
 	flag.Parse()
@@ -63,9 +64,9 @@ func main() {
 		}
 	}
 	type result struct {
-		LoadSec float64                 `json:"load_s"`
-		Reports []*symgo.HarnessReport  `json:"reports"`
-		Pinned  *symgo.PathResult       `json:"pinned,omitempty"`
+		LoadSec float64                `json:"load_s"`
+		Reports []*symgo.HarnessReport `json:"reports"`
+		Pinned  *symgo.PathResult      `json:"pinned,omitempty"`
 	}
 	res := &result{LoadSec: loadS}
 	exit := 0
@@ -103,6 +104,9 @@ func main() {
 		}
 		if *shadow != "" {
 			cfg.ShadowBin = strings.Fields(*shadow)
+		}
+		if *solverBin != "" {
+			cfg.SolverBin = strings.Fields(*solverBin)
 		}
 		if *pinned != "" || flag.Lookup("pinned").Value.String() != "" {
 			vals := []string{}
